@@ -26,7 +26,7 @@ var R = hx.NewRecorder("C01", "cases = (key, message, user id, 40-byte nonce blo
 var cv = rsm2.Std
 
 func TestMain(m *testing.M) {
-	R.Require("lz_d", "lz_xy", "uid_absent", "uid_long", "msg_empty", "msg>1block", "der_nonstrict", "verify_equal_points",
+	R.Require("keyless_forgery_r+s=n", "lz_d", "lz_xy", "uid_absent", "uid_long", "msg_empty", "msg>1block", "der_nonstrict", "verify_equal_points",
 		"p:msg", "p:uid", "p:pubkey", "p:r_range", "p:s_range", "p:r+s=0", "p:other_msg_sig", "p:negP")
 	hx.Main(m, R)
 }
@@ -405,6 +405,46 @@ func TestC01_VerifyEqualPoints(t *testing.T) {
 			t.Fatalf("Verify rejected a valid signature whose verification adds two equal points: d=%x e=%x r=%x s=%x", d, e, r, s)
 		}
 		R.Case(true, hx.HashKey("eqpts", d.Bytes(), r.Bytes()), "verify_equal_points")
+	})
+}
+
+// Digest-level forgeries that need NO private key: (r, s) with r + s = 0 mod n (the standard's explicit t = 0 rejection),
+// where the digest is chosen so that the remaining equation r = e + x([s]G) holds. Because t = 0 removes the public key
+// from the equation, such a triple would verify under EVERY public key if the t = 0 step were missing or bypassed
+// (e.g. by a reduction that leaves t = n).
+func TestC01_KeylessForgery(t *testing.T) {
+	hx.Check(t, hx.N(400, 6000), func(t *rapid.T) {
+		victim := gen.KeyPair(hx.Root()).Draw(t, "victim")
+		r := gen.BigBelow(new(big.Int).Sub(cv.N, big.NewInt(1))).Draw(t, "r")
+		r.Add(r, big.NewInt(1))
+		if gen.OneIn(t, "edge", 4) {
+			r = rapid.SampledFrom([]*big.Int{big.NewInt(1), big.NewInt(2), new(big.Int).Sub(cv.N, big.NewInt(1)), new(big.Int).Rsh(cv.N, 1)}).Draw(t, "redge")
+		}
+		s := new(big.Int).Sub(cv.N, r) // r + s = n
+		if s.Sign() == 0 {
+			t.Skip("s = 0")
+		}
+		x1, _ := cv.BaseMul(s).Affine()
+		e := new(big.Int).Sub(r, x1)
+		e.Mod(e, cv.N)
+		hash := rsm2.Pad32(e)
+		for _, variant := range []string{"t=n", "s+n", "r+n"} {
+			rr, ss := r, s
+			switch variant {
+			case "s+n":
+				ss = new(big.Int).Add(s, cv.N)
+			case "r+n":
+				rr = new(big.Int).Add(r, cv.N)
+			}
+			var got bool
+			if p := hx.Try(func() { got = sm2.Verify(sm2x.Pub(victim.Pub), hash, rr, ss) }); p != nil {
+				t.Fatalf("Verify panicked on a forgery: %v", p.Val)
+			}
+			if got {
+				t.Fatalf("Verify ACCEPTED a keyless forgery (%s) under the public key of d=%x: r=%x s=%x (r+s = 0 mod n) digest=%x", variant, victim.D, rr, ss, hash)
+			}
+		}
+		R.Case(true, hx.HashKey("forge", victim.D.Bytes(), r.Bytes()), "keyless_forgery_r+s=n")
 	})
 }
 
